@@ -81,7 +81,8 @@ SumPub(imps, i) == IF i > Len(imps) THEN Var("n") ELSE Bin("+", SumPub(imps, i +
 \* a private (lower-case) counter that every importer bumps from its top-level code: module state must survive being reached again
 GBody(f, imps) == <<Def1("G", I(10 * GK(f))), Def1("hits", I(0)), VarDef(<<"seen">>, "string", <<StrL("-")>>),
                     Func("Pub", <<Param("n", "int")>>, <<"int">>, <<RetS(<<Bin("+", SumPub(imps, 1), Var("G"))>>)>>),
-                    Func("Hit", <<Param("who", "string")>>, <<"int">>, <<Inc("hits"), Compound("seen", "+", Var("who")), RetS(<<Var("hits")>>)>>),
+                    Func("bump", <<Param("n", "int")>>, <<"int">>, <<RetS(<<Bin("+", Var("n"), I(1))>>)>>),          \* a private helper that import-time calls of Hit need
+                    Func("Hit", <<Param("who", "string")>>, <<"int">>, <<Asg1("hits", CallE("bump", <<Var("hits")>>)), Compound("seen", "+", Var("who")), RetS(<<Var("hits")>>)>>),
                     Func("Seen", <<>>, <<"string">>, <<RetS(<<Var("seen")>>)>>),
                     PrintS(<<StrL("load " \o f), CallE("Pub", <<I(0)>>)>> \o [i \in 1..Len(imps) |-> ACall(imps[i].alias, "Hit", <<StrL(f)>>)])>>
 GImps(l) == [i \in 1..Len(l) |-> Imp("x" \o l[i] \o ToString(i), l[i] \o ".tsh")]
